@@ -397,7 +397,7 @@ class Check:
         nontrivial = (len(sc['steps']) >= 3 and state_changes >= 2) or bool(faults)
         return R.ok(faults=faults, probes=probes, nontrivial=nontrivial, distinct_key=prng.short([kinds, sorted({k for s in sc['steps'] for k in (s.get('D') or {})})]),
                     interleavings=[prng.short(kinds)], summary={'ops': kinds}, steps=len(sc['steps']),
-                    trace_digest=prng.digest(trace))
+                    trace_digest=prng.digest(json.loads(json.dumps(trace, default=str).replace(root, '<ROOT>'))))
 
     @staticmethod
     def read_cmdline(bd: str) -> T.Optional[T.Dict[str, str]]:
